@@ -181,6 +181,29 @@ fn c11_directed(mask: u8, subset: u8) {
     core::mem::forget(edges);
 }
 
+/// Smallest graph with a self-loop on a neighbour: self-loops never count.
+fn c11_undirected_small() {
+    let edges: Vec<(u8, u8, f64)> = vec![(2, 0, 1.0), (0, 0, 1.0)];
+    let nodes: Vec<(u8, Option<u8>)> = vec![(2, None), (0, None)];
+    let g = build_direct(permissive(false, false), &nodes, &edges);
+    let tri = triangles(&g, None);
+    let cl = clustering(&g, false, None);
+    let gd = generalized_degree(&g, None);
+    let tr = transitivity(&g);
+    vassert!(tri.is_ok() && cl.is_ok() && gd.is_ok() && tr.is_ok(), "the cluster functions succeed");
+    for x in [2u8, 0].iter() {
+        vassert!(tri.as_ref().unwrap().get(&Nm(*x)) == Some(&0), "a self-loop is not a triangle");
+        let c = cl.as_ref().unwrap().get(&Nm(*x));
+        vassert!(c.is_some() && *c.unwrap() == 0.0, "clustering is 0 without triangles");
+        let h = gd.as_ref().unwrap().get(&Nm(*x)).unwrap();
+        vassert!(h.get(&1).copied().unwrap_or(0) == 0 && h.get(&0).copied().unwrap_or(0) == 1, "generalized_degree: one edge without triangles");
+    }
+    vassert!(*tr.as_ref().unwrap() == 0.0, "transitivity is 0 without triangles");
+    vcover!(true, "reached end");
+    core::mem::forget((tri, cl, gd, tr));
+    core::mem::forget(g);
+}
+
 /// Multi-edge graphs are refused.
 fn c11_multi_refused(directed: bool) {
     let edges = topo_edges(directed, 0b0011, false);
